@@ -171,8 +171,8 @@ CHECKS["C15"] = {
     "technique": "arbitrary symbolic bytes after each tag in a valid frame through the real decoders (panic conditions and structural post-conditions as solver queries); "
                  "an independent strict RFC 8216 line grammar, symbolically executed over the real Marshal output for the C14 value space",
     "bounds": {"quick": {"decoder": "one tag (27 media / 9 multivariant prefixes, incl. attribute-list prefixes) + 6 arbitrary bytes, in two frame positions", "grammar": "C14 value space with integers < 10^4",
-                         "request query": "{'', 't=', '_HLS_msn=1&'} + 3 arbitrary printable bytes through filterOutHLSParams (net/url from source); 3 arbitrary printable bytes through generateMultivariantPlaylist of a video+audio fMP4 muxer"},
-               "thorough": {"decoder": "8 arbitrary bytes", "grammar": "integers < 10^5", "request query": "5 arbitrary bytes"}},
+                         "request query": "{'', 't=', '_HLS_msn=1&'} + 3 arbitrary printable bytes through filterOutHLSParams (net/url from source); 5 arbitrary printable bytes through generateMultivariantPlaylist of a video+audio fMP4 muxer"},
+               "thorough": {"decoder": "8 arbitrary bytes", "grammar": "integers < 10^5", "request query": "filterOutHLSParams as quick (4 bytes did not finish inside a 13 min probe on a loaded machine: not registered); multivariant 8 bytes"}},
     "assumptions": ["strconv.ParseFloat / time.Parse on symbolic text return a nondeterministic (representative value | error), incl. 0, NaN and +Inf for floats",
                     "segment titles ASCII (strings.TrimSpace's Unicode path not encoded)", "a MediaServerControl value sets at least one attribute",
                     "playlists served by a muxer are covered through the C14 value space (same Marshal code) and, natively, by the replay of the muxer harnesses"],
@@ -188,9 +188,9 @@ CHECKS["C15"] = {
 }
 
 CHECKS["C15"]["runs"].append({"name": "run.mux.query", "files": [G + "c15_query.go"] + MUX, "fn": "VerifH_C15_query", "workers": 16,
-                              "params_quick": {"L": 3}, "params_thorough": {"L": 5}, "reach": ["filtered"], "budget_quick": 600, "budget_thorough": 3600})
+                              "params_quick": {"L": 3}, "params_thorough": {"L": 3}, "reach": ["filtered"], "budget_quick": 600, "budget_thorough": 3600})
 CHECKS["C15"]["runs"].append({"name": "run.mux.query.multivariant", "files": [G + "c15_query.go", G + "c16_multivariant.go", G + "c06_reload.go"] + MUX, "fn": "VerifH_C15_mvquery", "workers": 16,
-                              "params_quick": {"L": 3}, "params_thorough": {"L": 5}, "reach": ["generated"], "budget_quick": 600, "budget_thorough": 3600})
+                              "params_quick": {"L": 5}, "params_thorough": {"L": 8}, "reach": ["generated"], "budget_quick": 600, "budget_thorough": 3600})
 C16F = [G + "c16_multivariant.go", G + "c06_reload.go"] + MUX
 CHECKS["C16"] = {
     "technique": "symbolic track lists through the real Start and generateMultivariantPlaylist; multivariant checks inside the bounded muxer runs; non-linear lemma on bandwidth()",
